@@ -290,6 +290,7 @@ impl Check for C11 {
             bound: Some(*bound),
             max_execs: 300_000,
             wall: Duration::from_secs(if full(tier) { 200 } else { 30 }),
+            spurious_upto: None,
         };
         let (s2, s3) = (sc.clone(), sc.clone());
         let found = explore_scenario::<O, _, _>(&cfg, acc, &sc.to_json(), move |o| body(s2.clone(), o), |o, r| judge(&s3, o, r));
